@@ -256,29 +256,26 @@ func (e *Env) noCutsetTrim(ob *core.Obligation, fn *ssa.Function) {
 		ob.Unknown("-", "function not found")
 		return
 	}
-	n := 0
+	var fns []*ssa.Function
 	var visit func(f *ssa.Function)
 	visit = func(f *ssa.Function) {
-		for _, b := range f.Blocks {
-			for _, in := range b.Instrs {
-				n++
-				c, ok := in.(*ssa.Call)
-				if !ok || c.Call.StaticCallee() == nil {
-					continue
-				}
-				switch c.Call.StaticCallee().String() {
-				case "strings.Trim", "strings.TrimLeft", "strings.TrimRight":
-					if _, isConst := c.Call.Args[1].(*ssa.Const); !isConst {
-						ob.Fail(e.where(c), c.Call.StaticCallee().String()+" with the cut-set "+e.symbolizer().InFunc(f, c.Call.Args[1]).String()+": a cut-set trim removes any run of those characters, not the prefix/suffix - characters of the remaining path are eaten too")
-					}
-				}
-			}
-		}
+		fns = append(fns, f)
 		for _, an := range f.AnonFuncs {
 			visit(an)
 		}
 	}
 	visit(fn)
+	n := 0
+	for _, f := range fns {
+		for _, b := range f.Blocks {
+			n += len(b.Instrs)
+		}
+	}
+	for _, in := range findCutsetTrim(fns) {
+		c := in.(*ssa.Call)
+		ob.Fail(e.where(c), c.Call.StaticCallee().String()+" with the cut-set "+e.symbolizer().InFunc(c.Parent(), c.Call.Args[1]).String()+": a cut-set trim removes any run of those characters, not the prefix/suffix - characters of the remaining path are eaten too")
+	}
+	e.positiveControls("cutset-trim")
 	ob.OK(core.FuncName(fn), fmt.Sprintf("%d instructions scanned", n))
 }
 
